@@ -396,6 +396,10 @@ if P.get('scenarios'):
                     job = [n for rta in S.ae.at
                            for n in rta.locate('test_15.' + step[2])][0]
                     S.complete(job, 1, step[3], {}, S.State.success)
+                elif op == 'targets':
+                    # the set of known targets changes (dawgie.db.targets() is
+                    # a question put to the database every time)
+                    targets[:] = list(step[1])
                 elif op == 'pause':
                     S.pause()
                 elif op == 'unpause':
